@@ -17,7 +17,15 @@ type ErrDomain struct{ Why string }
 
 func (e *ErrDomain) Error() string { return "not evaluable: " + e.Why }
 
-func dom(why string) error { return &ErrDomain{why} }
+func dom(why string) error {
+	DomainStats[why]++
+	return &ErrDomain{why}
+}
+
+// DomainStats counts, per reason, how often the reference declared an
+// evaluation undefined (workers are single-threaded). The checks publish it in
+// their evidence so that a generator element that is never judged shows up.
+var DomainStats = map[string]int64{}
 
 // IsDomain reports whether err is an out-of-domain marker.
 func IsDomain(err error) bool {
@@ -206,8 +214,8 @@ func Eval(e *Expr, env *Env) (Val, error) {
 		if err != nil {
 			return Val{}, err
 		}
-		if c >= 0 {
-			return Val{}, dom("between with lower >= upper")
+		if c > 0 {
+			return Val{}, dom("between with lower > upper")
 		}
 		c1, err := compare(x, lo)
 		if err != nil {
@@ -534,6 +542,31 @@ func evalCall(e *Expr, env *Env) (Val, error) {
 			return Val{}, err
 		}
 		return T(s), nil
+	case "substr":
+		// "return substring of value from start position to end position":
+		// bytes [start, end), positions beyond the text clipped to its end;
+		// negative or reversed positions are left undefined
+		if err := need(3); err != nil {
+			return Val{}, err
+		}
+		s, err := asText(args[0])
+		if err != nil {
+			return Val{}, err
+		}
+		if args[1].K != 'I' || args[2].K != 'I' {
+			return Val{}, dom("substr positions are not integers")
+		}
+		a, b := args[1].I, args[2].I
+		if a < 0 || b < a {
+			return Val{}, dom("substr with negative or reversed positions")
+		}
+		if a > int64(len(s)) {
+			a = int64(len(s))
+		}
+		if b > int64(len(s)) {
+			b = int64(len(s))
+		}
+		return T(s[a:b]), nil
 	case "strlen":
 		if err := need(1); err != nil {
 			return Val{}, err
